@@ -30,58 +30,18 @@ theorem wf_envOf_attrOnly (P : Params) (t : Tabs) (st : SM.St) (lt : Node → No
     (hcalls : ∀ v key, NsNoCalls (P.srcOf v key)) : WF (envOf P t st) lt :=
   ⟨ranked_envOf_noCalls P t st lt hcalls, noCatch_envOf P t st hnc, scoped_envOf_attrOnly P t st hao⟩
 
-/-- an operation that is no `del space` keeps every space -/
-theorem has_apply_of_not_delSpace (kw : List String) {st st' : SM.St} (hi : SM.Inv st) (o : SM.Op)
-    (hnd : ∀ p, o ≠ .delSpace p) (hop : st.apply kw o = some st') (q : Path) (hq : st.has q = true) :
-    st'.has q = true := by
-  have heff := apply_spec kw st st' (keysOK_of_inv hi) o hop
-  rw [has_iff_ids] at hq ⊢
-  cases o with
-  | newSpace parent name bases refs => rw [heff.2.1]; exact List.mem_append_left _ hq
-  | delSpace p => exact absurd rfl (hnd p)
-  | newCells p name fname v => rw [heff.1.ids]; exact hq
-  | setFormula p name v => rw [heff.1.ids]; exact hq
-  | delCells p name => rw [heff.1.ids]; exact hq
-  | renameCells p old new => rw [heff.1.ids]; exact hq
-  | addBases p bs => rw [heff.ids]; exact hq
-  | removeBases p bs => rw [heff.ids]; exact hq
-  | setRef p name v => rw [heff.1.ids]; exact hq
-  | delRef p name => rw [heff.1.ids]; exact hq
-  | setGlobal name => unfold St.ids; rw [heff.1]; exact hq
-  | delGlobal name => unfold St.ids; rw [heff.1]; exact hq
-
-def isDelSpace : OpG → Bool
-  | .op (.struct (.delSpace _)) => true
-  | _ => false
-
-theorem noOrphan_of_not_delSpace (P : Params) (w : W) (hi : SM.Inv w.sm) (op : OpG) (hnd : isDelSpace op = false) :
-    NoOrphanReaders P w op := by
-  cases op with
-  | setGlobal x v => trivial
-  | delGlobal x => trivial
-  | op o =>
-    cases o with
-    | struct o' =>
-      intro st' hop q x hq hq' _ _
-      have := has_apply_of_not_delSpace P.kw hi o' (fun p e => by subst e; cases hnd) hop q hq
-      rw [this] at hq'; cases hq'
-    | _ => trivial
-
-/-- **every history that deletes no space is admissible** for sources that read references through
-attribute paths only, call nothing and catch nothing -/
-theorem admissibleG_of_sources (P : Params) (lt : Node → Node → Prop) (ho : StrictOrder lt)
+/-- **every history is admissible** for sources that read references through attribute paths only, call
+nothing and catch nothing -/
+theorem admissibleG_of_sources (P : Params) (lt : Node → Node → Prop)
     (hnc : ∀ v key, NsNoCatch (P.srcOf v key)) (hao : ∀ v key, NsAttrOnly (P.srcOf v key))
     (hcalls : ∀ v key, NsNoCalls (P.srcOf v key)) :
-    ∀ (ops : List OpG) (w : W), (∀ op ∈ ops, isDelSpace op = false) → CIG P lt w → AdmissibleG P lt w ops := by
+    ∀ (ops : List OpG) (w : W), AdmissibleG P lt w ops := by
   intro ops
   induction ops with
-  | nil => intro w _ _; trivial
+  | nil => intro w; trivial
   | cons op rest ih =>
-    intro w hnd h
-    have h0 := noOrphan_of_not_delSpace P w h.inv op (hnd op (by simp))
-    have hw : WF (w.env P) lt := wf_envOf_attrOnly P _ _ lt hnc hao hcalls
-    exact ⟨h0, wf_envOf_attrOnly P _ _ lt hnc hao hcalls,
-      ih _ (fun op' hop' => hnd op' (List.mem_cons_of_mem _ hop')) (stepG_cig ho w op hw h h0)⟩
+    intro w
+    exact ⟨wf_envOf_attrOnly P _ _ lt hnc hao hcalls, ih _⟩
 
 /-! ## the example -/
 
@@ -151,8 +111,8 @@ theorem readAttr_ok (x : String) : NsNoCatch (readAttr x) ∧ NsAttrOnly (readAt
         cases o <;> trivial
 
 theorem gOps_admissible : AdmissibleG gP idLt (W.init gSlots) gOps :=
-  admissibleG_of_sources gP idLt idLt_strict (fun _ _ => (readAttr_ok _).1) (fun _ _ => (readAttr_ok _).2.1)
-    (fun _ _ => (readAttr_ok _).2.2) gOps _ (by decide) (cig_init gP idLt gSlots)
+  admissibleG_of_sources gP idLt (fun _ _ => (readAttr_ok _).1) (fun _ _ => (readAttr_ok _).2.1)
+    (fun _ _ => (readAttr_ok _).2.2) gOps _
 
 /-! ## the code before /repo 5b95fbf -/
 
@@ -178,5 +138,41 @@ def stepPre (P : Params) (w : W) (o : SM.Op) : W :=
   | some st' =>
     let t' := w.tabs.grow st'
     { sm := st', tabs := t', ex := doClears (envOf P t' w.sm) w.ex (clearingPre P.kw t' w.sm st' o) }
+
+/-! ## the code before /repo 40cbe69 -/
+
+/-- `m.x = 1`; `T.c = lambda: S.x`; `T.c()`; `del m.S`; `T.c()` -/
+def hOps : List OpG := [
+  .setGlobal "x" 1,
+  .op (.struct (.newSpace [] "S" [] [])),
+  .op (.struct (.newSpace [] "T" [] [])),
+  .op (.struct (.newCells ["T"] "c" "c" 0)),
+  .op (.eval ["T"] "c" []),
+  .op (.struct (.delSpace ["S"])),
+  .op (.eval ["T"] "c" [])]
+
+theorem hOps_admissible : AdmissibleG gP idLt (W.init gSlots) hOps :=
+  admissibleG_of_sources gP idLt (fun _ _ => (readAttr_ok _).1) (fun _ _ => (readAttr_ok _).2.1)
+    (fun _ _ => (readAttr_ok _).2.2) hOps _
+
+/-- the clearing of the code BEFORE 40cbe69: `BaseSpaceImpl.on_delete` clears the attribute readers of the
+deleted space's own references only -/
+def clearingPre40 (kw : List String) (t : Tabs) (st st' : SM.St) (o : SM.Op) : List Clear :=
+  clearing kw t st st' o ++
+    (match o with
+     | .delSpace _ => (shadowed st st' false ++ shadowedCells st st').flatMap (globalAttr t st)
+     | o => shadowClears t st st' o)
+
+def stepCoveredPre40 (P : Params) (w : W) (o : SM.Op) : Bool :=
+  match w.sm.apply P.kw o with
+  | none => true
+  | some st' => covered (w.tabs.grow st') w.sm st' (clearingPre40 P.kw (w.tabs.grow st') w.sm st' o)
+
+def stepPre40 (P : Params) (w : W) (o : SM.Op) : W :=
+  match w.sm.apply P.kw o with
+  | none => w
+  | some st' =>
+    let t' := w.tabs.grow st'
+    { sm := st', tabs := t', ex := doClears (envOf P t' w.sm) w.ex (clearingPre40 P.kw t' w.sm st' o) }
 
 end MxModel.Edit
